@@ -221,6 +221,69 @@ def wf_fan() -> Any:
                                  make_step("join", [Done], [StopEvent, None], join, num_workers=1)])
 
 
+def wf_fan3() -> Any:
+    """three work items for two workers: one waits in the step queue; the fan-in result is order-sensitive"""
+    async def start(self, ctx, ev, inv):  # noqa: ANN001
+        for i in (1, 2, 3):
+            ctx.send_event(Work(uid=i))
+        return None
+
+    async def work(self, ctx, ev, inv):  # noqa: ANN001
+        await gate(f"work{ev.uid}")
+        return Done(uid=ev.uid)
+
+    async def join(self, ctx, ev, inv):  # noqa: ANN001
+        got = ctx.collect_events(ev, [Done, Done, Done])
+        if got is None:
+            return None
+        return StopEvent(result="fan3:" + ",".join(str(e.uid) for e in got))
+
+    return make_workflow("Fan3", [make_step("start", [StartEvent], [Work, None], start), make_step("work", [Work], [Done], work, num_workers=2),
+                                  make_step("join", [Done], [StopEvent, None], join, num_workers=1)])
+
+
+def wf_fan_retry() -> Any:
+    """two concurrent workers, one of which fails once (zero-delay retry) - retry ticks interleave with the sibling's result"""
+    async def start(self, ctx, ev, inv):  # noqa: ANN001
+        ctx.send_event(Work(uid=1))
+        ctx.send_event(Work(uid=2))
+        return None
+
+    async def work(self, ctx, ev, inv):  # noqa: ANN001
+        n = ctx.retry_info().retry_number
+        await gate(f"work{ev.uid}.{n}")
+        if ev.uid == 1 and n < 1:
+            raise RuntimeError("fail0")
+        return Done(uid=ev.uid * 10 + n)
+
+    async def join(self, ctx, ev, inv):  # noqa: ANN001
+        got = ctx.collect_events(ev, [Done, Done])
+        if got is None:
+            return None
+        return StopEvent(result="fan_retry:" + ",".join(str(e.uid) for e in got))
+
+    return make_workflow("FanRetry", [make_step("start", [StartEvent], [Work, None], start),
+                                      make_step("work", [Work], [Done], work, num_workers=2,
+                                                retry_policy=retry_policy(wait=wait_fixed(0), stop=stop_after_attempt(3))),
+                                      make_step("join", [Done], [StopEvent, None], join, num_workers=1)])
+
+
+def wf_chain3() -> Any:
+    async def s1(self, ctx, ev, inv):  # noqa: ANN001
+        await gate("s1")
+        return A(uid=1)
+
+    async def s2(self, ctx, ev, inv):  # noqa: ANN001
+        await gate("s2")
+        return Work(uid=ev.uid + 1)
+
+    async def s3(self, ctx, ev, inv):  # noqa: ANN001
+        await gate("s3")
+        return StopEvent(result=f"chain3:{ev.uid}")
+
+    return make_workflow("Chain3", [make_step("s1", [StartEvent], [A], s1), make_step("s2", [A], [Work], s2), make_step("s3", [Work], [StopEvent], s3)])
+
+
 def wf_retry() -> Any:
     async def flaky(self, ctx, ev, inv):  # noqa: ANN001
         n = ctx.retry_info().retry_number
@@ -246,6 +309,9 @@ PROGRAMS: dict[str, dict[str, Any]] = {
     "fan": {"make": wf_fan, "external": []},
     "retry": {"make": wf_retry, "external": []},
     "wait": {"make": wf_wait, "external": [100]},
+    "fan3": {"make": wf_fan3, "external": []},
+    "fan_retry": {"make": wf_fan_retry, "external": []},
+    "chain3": {"make": wf_chain3, "external": []},
 }
 _DIR: dict[str, str] = {}
 
@@ -375,8 +441,9 @@ def programs(tier: str) -> list[Program]:
     q = tier == "quick"
     ps = []
     for pname in PROGRAMS:
-        ps.append(Program(pname, {"program": pname}, (lambda ex, pname=pname: execute(ex, pname, 40)), max_dev=(3 if q else 5),
-                          outcome_key=None))
+        big = pname in ("fan3", "fan_retry")
+        ps.append(Program(pname, {"program": pname}, (lambda ex, pname=pname: execute(ex, pname, 60 if pname in ("fan3", "fan_retry") else 40)),
+                          max_dev=((2 if big else 3) if q else (5 if big else None)), outcome_key=None))
     return ps
 
 
@@ -384,10 +451,11 @@ def post_results(name: str) -> Any:
     return None
 
 
-RULE = ("4 workflows (chain, fan-out with two concurrent workers + order-sensitive fan-in, zero-delay retry, waiter + external event) on "
+RULE = ("7 workflows (2- and 3-step chains, fan-out with two concurrent workers + order-sensitive fan-in, three items for two workers, a "
+        "worker that fails once next to a sibling, zero-delay retry, waiter + external event) on "
         "the real control loop with the real InternalDBOSAdapter.wait_for_next_task / TaskJournal / SqliteJournalCrud (DB file) over "
         "modelled DBOS durable operations x every completion order within the deviation bound x process stop after every durable write "
-        "(operation result or journal row, up to 40) x recovery with recorded results returned at explorer-chosen moments; the recovered "
+        "(operation result or journal row, up to 40-60) x recovery with recorded results returned at explorer-chosen moments; the recovered "
         "tick log must extend the original one, durable operations must be called in the recorded order, and the run must finish; "
         "non-trivial = executions with a stop or a deviation")
 
